@@ -244,3 +244,29 @@ Example hypotheses_satisfiable :
   explain {| c_registered := [2]; c_envs := [e]; c_errs := [false]; c_handlers := []; c_roundtrip := [] |}
   = [SDeliver {| d_sender := 7; d_key := 3; d_type := 2; d_seqno := 9; d_payload := 5 |}].
 Proof. reflexivity. Qed.
+
+(* the executable property rejects a delivery made on behalf of an author whose peer ID (here 8,
+   e.g. a hashed RSA ID that does not inline its key) is not the ID of the inner identity's key (7):
+   the shape of an impersonation through a skipped sender comparison.  Peer IDs are opaque to the
+   model and to spec_ok: only equality with idOf(inner key) matters. *)
+Example impersonation_is_flagged :
+  let i := {| i_key := 1; i_pid := 7; i_peer := 7; i_op := Some 3 |} in
+  let e := {| c_from := 8; c_type := 2; c_payload := Some 5; c_inner := Some i; c_seqno := 9 |} in
+  judge {| c_registered := [2]; c_envs := [e]; c_errs := [false];
+           c_handlers := [[{| d_sender := 7; d_key := 3; d_type := 2; d_seqno := 9; d_payload := 5 |}]];
+           c_roundtrip := [] |} = SpecFail.
+Proof. reflexivity. Qed.
+
+(* in general: whatever a handler received beyond (or short of) the allowed messages fails spec_ok;
+   in particular a message for an envelope whose author differs from the inner key's peer ID *)
+Lemma spec_ok_rejects_unattributed : forall c h d,
+  In h (c_handlers c) -> In d h ->
+  (forall e, In e (c_envs c) -> allowed (c_registered c) e <> Some d) ->
+  spec_ok c = false.
+Proof.
+  intros c h d Hh Hd Hno. destruct (spec_ok c) eqn:E; [|reflexivity]. exfalso.
+  unfold spec_ok in E. apply andb_prop in E. destruct E as [E _]. apply andb_prop in E. destruct E as [E _].
+  rewrite forallb_forall in E. specialize (E h Hh).
+  apply (same_multiset_in _ _ E) in Hd. apply filter_map_in in Hd. destruct Hd as (e & He & Ha).
+  exact (Hno e He Ha).
+Qed.
